@@ -1,6 +1,7 @@
 // kernels.go — a deliberately tiny Go→Lean translator for the decision kernels of rules/standard (P4), of
 // services/checker/static and services/process/standard (P7, second half of this file) and of util/scatter.go,
-// the gRPC receiver's senderID, OnCommit, getGeneration and peers.Suitable (P9, last part of this file).
+// the gRPC receiver's senderID, OnCommit, getGeneration and peers.Suitable (P9), and of the import command's merge
+// loop in slashingprotection.go (P12, last part of this file).
 //
 // It is a guard-chain extractor, not a Go compiler: the body of each kernel is read as a sequence of
 // guards (`if cond { …log…; return rules.X }`), local aliases, state-field updates and a final return,
@@ -158,6 +159,22 @@ var kernelSpecs = []kernelSpec{
 		file: "services/peers/static/service.go", fn: "Suitable",
 		name: "suitableRefusesGen", guards: "suitableRefusesGuards", model: "Dirk.suitableAlloc",
 		pkgLog: true, custom: transSuitable,
+	},
+	// ---- P12 ----
+	{
+		file: "slashingprotection.go", fn: "storeSlashingProtection",
+		name: "importStartGen", guards: "importStartGuards", model: "Dirk.mergeEntries (the start record)",
+		pkgLog: true, custom: transImportStart,
+	},
+	{
+		file: "slashingprotection.go", fn: "storeSlashingProtection",
+		name: "importAttStepGen", guards: "importAttStepGuards", model: "Dirk.foldAtts (one element)",
+		pkgLog: true, custom: transImportAttStep,
+	},
+	{
+		file: "slashingprotection.go", fn: "storeSlashingProtection",
+		name: "importBlockStepGen", guards: "importBlockStepGuards", model: "Dirk.foldBlocks (one element)",
+		pkgLog: true, custom: transImportBlockStep,
 	},
 }
 
@@ -1088,7 +1105,7 @@ func writeKernels(repo, dir string) {
 	var b strings.Builder
 	b.WriteString("/-\n  Dirk.Gen.Kernels — GENERATED — do not edit.  Regenerated on every run by /verif/factx (kernels.go) from the\n" +
 		"  Go source of the decision kernels (rules/standard, services/checker/static, services/process/standard,\n" +
-		"  util/scatter.go, services/api/grpc/handlers/receiver, services/peers/static);\n" +
+		"  util/scatter.go, services/api/grpc/handlers/receiver, services/peers/static, slashingprotection.go);\n" +
 		"  Dirk/Props/KernelsEq.lean proves each definition\n" +
 		"  equal to the hand-written model function.  A kernel outside the translatable fragment appears as\n" +
 		"  `kernelUntranslatable_<name>` instead, and KernelsEq.lean does not build.\n-/\n" +
@@ -3063,4 +3080,673 @@ func transSuitable(k *ktrans, fd *ast.FuncDecl) string {
 	fmt.Fprintf(&b, "def suitableAllocGen (threshold npeers : Nat) : Option Nat :=\n  if %s threshold npeers then none else some %s\n\n", k.spec.name, size)
 	k.emitGuardTexts(&b, texts)
 	return b.String()
+}
+
+// =============================================================================================
+// P12: the import command's raise-only merge — the body of the loop over protection.Data in storeSlashingProtection
+// (slashingprotection.go, package main).  Three kernels are cut out of ONE loop body, whose skeleton must be exactly
+//
+//	for I := range P.Data {                                   (P: the *SlashingProtection parameter; entry = P.Data[I])
+//	    B, err := hex.DecodeString(strings.TrimPrefix(entry.PublicKey, "0x")); if err != nil { return <error> }
+//	    var K [48]byte; copy(K[:], B)                          (the key: the model's hexDecode0x / fit48, not translated)
+//	    KP, EX := M[K]                                         (M: the map being built; EX ↦ fromFile is `some`)
+//	    if !EX { KP = &rules.SlashingProtection{…}; …; if EKP, EX2 := E[K]; EX2 { KP.F = EKP.G … } }
+//	                                                           ↦ importStartGen        (E: the export of the existing store)
+//	    for _, A := range entry.SignedAttestations { … }      ↦ importAttStepGen      (one iteration)
+//	    for _, Q := range entry.SignedBlocks { … }            ↦ importBlockStepGen    (one iteration)
+//	    M[K] = KP
+//	}
+//
+// (the two inner loops in either order; log / print statements anywhere).  Anything else in the loop body makes all
+// three kernels untranslatable; a statement outside the fragment inside one of the three parts makes that kernel
+// untranslatable.  The numbers parsed from the file are inputs: `strconv.ParseInt(A.F, 10, 64)` ↦ an `Option Int`
+// parameter (`none` = the call returned an error), so no string handling is generated.
+
+var importFields = []kparam{
+	{"HighestProposedSlot", "curSlot", "Int", tInt},
+	{"HighestAttestedSourceEpoch", "curSrc", "Int", tInt},
+	{"HighestAttestedTargetEpoch", "curTgt", "Int", tInt},
+}
+
+type importShape struct {
+	prot, idx     string // P, I
+	entry         string // source text of the current entry: P.Data[I]
+	m, e          string // M, E
+	key, keyBytes string // K, B
+	kp, exists    string // KP, EX
+	startIf       *ast.IfStmt
+	attLoop       *ast.RangeStmt
+	blockLoop     *ast.RangeStmt
+	keyTexts      []string // the key derivation, for the guard list of importStartGen
+	loopOrder     string
+	taken         map[string]bool
+}
+
+// importPrint: fmt.Fprintf(os.Stderr, …) / fmt.Fprintln / fmt.Printf / fmt.Println with pure arguments — how package
+// main reports to the operator; no effect on the merge.
+func (k *ktrans) importPrint(st ast.Stmt) bool {
+	es, ok := st.(*ast.ExprStmt)
+	if !ok {
+		return false
+	}
+	call, ok := es.X.(*ast.CallExpr)
+	if !ok {
+		return false
+	}
+	args := call.Args
+	switch src(call.Fun) {
+	case "fmt.Fprintf", "fmt.Fprintln", "fmt.Fprint":
+		if len(args) == 0 || (src(args[0]) != "os.Stderr" && src(args[0]) != "os.Stdout") {
+			return false
+		}
+		args = args[1:]
+	case "fmt.Printf", "fmt.Println", "fmt.Print":
+	default:
+		return false
+	}
+	for _, a := range args {
+		if !pureArg(a) {
+			return false
+		}
+	}
+	return true
+}
+
+func (k *ktrans) importSilent(st ast.Stmt) bool { return k.silentStmt(st) || k.importPrint(st) }
+
+// importReserved: packages, builtins and names this kernel's translation interprets; the loop body must not rebind them
+// (the source's own local `bytes` is fine: package bytes is not interpreted here).
+var importReserved = map[string]bool{
+	"strconv": true, "errors": true, "fmt": true, "hex": true, "strings": true, "rules": true, "os": true, "math": true,
+	"err": true, "nil": true, "true": true, "false": true, "copy": true, "make": true, "len": true, "int64": true,
+	"uint64": true, "int": true, "log": true,
+}
+
+// importFresh: a name the loop body introduces; it must not hide anything the translation refers to.
+func (k *ktrans) importFresh(n ast.Node, sh *importShape, e ast.Expr) string {
+	id, ok := e.(*ast.Ident)
+	if !ok || id.Name == "_" || importReserved[id.Name] || k.roots[id.Name] || sh.taken[id.Name] || k.silent[id.Name] {
+		k.fail(n, "unusable or already used local name %s", src(e))
+	}
+	sh.taken[id.Name] = true
+	return id.Name
+}
+
+func mentionsIdent(n ast.Node, name string) (found bool) {
+	ast.Inspect(n, func(m ast.Node) bool {
+		if id, ok := m.(*ast.Ident); ok && id.Name == name {
+			found = true
+		}
+		return !found
+	})
+	return found
+}
+
+// importErrReturn: `return <error>` out of a function with the single result `error`.  afterErr: the statement is the
+// arm of `if err != nil` directly after the call that set err, so `err` and `errors.Wrap(err, …)` are not nil either.
+func (k *ktrans) importErrReturn(st ast.Stmt, afterErr bool) bool {
+	r, ok := st.(*ast.ReturnStmt)
+	if !ok || len(r.Results) != 1 {
+		return false
+	}
+	if afterErr && src(r.Results[0]) == "err" {
+		return true
+	}
+	call, ok := r.Results[0].(*ast.CallExpr)
+	if !ok {
+		return false
+	}
+	args := call.Args
+	switch src(call.Fun) {
+	case "errors.New", "fmt.Errorf":
+	case "errors.Wrap", "errors.Wrapf", "errors.WithMessage":
+		if !afterErr || len(args) == 0 || src(args[0]) != "err" {
+			return false
+		}
+		args = args[1:]
+	default:
+		return false
+	}
+	for _, a := range args {
+		if !pureArg(a) {
+			return false
+		}
+	}
+	return true
+}
+
+// importErrArm: `if err != nil { …prints…; return <error> }`
+func (k *ktrans) importErrArm(st ast.Stmt) bool {
+	x, ok := plainIf(st)
+	if !ok || !isErrNotNil(x.Cond) || len(x.Body.List) == 0 {
+		return false
+	}
+	for i, bs := range x.Body.List {
+		if i == len(x.Body.List)-1 {
+			return k.importErrReturn(bs, true)
+		}
+		if !k.importSilent(bs) {
+			return false
+		}
+	}
+	return false
+}
+
+// importStructOK: rules.SlashingProtection declares the three watermarks as int64 (the types the translation assigns
+// by name).
+func (k *ktrans) importStructOK() {
+	dir := filepath.Join(k.repo, "rules")
+	ents, err := os.ReadDir(dir)
+	if err != nil {
+		k.fail(nil, "cannot read the rules package")
+	}
+	found := map[string]bool{}
+	for _, e := range ents {
+		if e.IsDir() || !strings.HasSuffix(e.Name(), ".go") || strings.HasSuffix(e.Name(), "_test.go") {
+			continue
+		}
+		f := parse(filepath.Join(dir, e.Name()))
+		if f == nil {
+			continue
+		}
+		for _, d := range f.Decls {
+			g, ok := d.(*ast.GenDecl)
+			if !ok || g.Tok != token.TYPE {
+				continue
+			}
+			for _, sp := range g.Specs {
+				ts, ok := sp.(*ast.TypeSpec)
+				if !ok || ts.Name.Name != "SlashingProtection" {
+					continue
+				}
+				stt, ok := ts.Type.(*ast.StructType)
+				if !ok {
+					k.fail(nil, "rules.SlashingProtection is not a struct")
+				}
+				for _, fl := range stt.Fields.List {
+					for _, n := range fl.Names {
+						if src(fl.Type) == "int64" {
+							found[n.Name] = true
+						}
+					}
+				}
+			}
+		}
+	}
+	for _, f := range importFields {
+		if !found[f.goExpr] {
+			k.fail(nil, "rules.SlashingProtection has no int64 field %s", f.goExpr)
+		}
+	}
+}
+
+func (k *ktrans) importSkeleton(fd *ast.FuncDecl) *importShape {
+	ps := flatParams(fd)
+	if fd.Recv != nil || len(ps) != 2 || ps[0].typ != "context.Context" || ps[1].typ != "*SlashingProtection" || resultTypes(fd) != "error" {
+		k.fail(nil, "%s is not func(context.Context, *SlashingProtection) error", k.spec.fn)
+	}
+	k.importStructOK()
+	sh := &importShape{prot: ps[1].name, taken: map[string]bool{}}
+	if sh.prot == "_" || importReserved[sh.prot] {
+		k.fail(nil, "unusable parameter name")
+	}
+	sh.taken[sh.prot] = true
+	if ps[0].name != "_" {
+		sh.taken[ps[0].name] = true
+	}
+	// the loop over P.Data: exactly one, at the top level of the function
+	var loop *ast.RangeStmt
+	loopAt := -1
+	for i, st := range fd.Body.List {
+		if r, ok := st.(*ast.RangeStmt); ok && src(r.X) == sh.prot+".Data" {
+			if loop != nil {
+				k.fail(st, "more than one loop over %s.Data", sh.prot)
+			}
+			loop, loopAt = r, i
+		}
+	}
+	if loop == nil {
+		k.fail(nil, "%s has no top-level loop over %s.Data", k.spec.fn, sh.prot)
+	}
+	if loop.Tok != token.DEFINE || loop.Value != nil || loop.Key == nil {
+		k.fail(loop, "the loop over the file's entries is not `for i := range %s.Data`", sh.prot)
+	}
+	sh.idx = k.importFresh(loop, sh, loop.Key)
+	sh.entry = sh.prot + ".Data[" + sh.idx + "]"
+
+	body := loop.Body.List
+	pos := 0
+	next := func(what string) ast.Stmt {
+		for pos < len(body) && k.importSilent(body[pos]) {
+			pos++
+		}
+		if pos >= len(body) {
+			k.fail(loop, "the loop body ends before %s", what)
+		}
+		pos++
+		return body[pos-1]
+	}
+	// the key
+	st := next("the decoding of the public key")
+	as, ok := st.(*ast.AssignStmt)
+	if !ok || as.Tok != token.DEFINE || len(as.Lhs) != 2 || len(as.Rhs) != 1 || src(as.Lhs[1]) != "err" ||
+		src(as.Rhs[0]) != "hex.DecodeString(strings.TrimPrefix("+sh.entry+".PublicKey, \"0x\"))" {
+		k.fail(st, "expected: b, err := hex.DecodeString(strings.TrimPrefix(%s.PublicKey, \"0x\"))", sh.entry)
+	}
+	sh.keyBytes = k.importFresh(st, sh, as.Lhs[0])
+	sh.keyTexts = append(sh.keyTexts, "[key] "+src(st)+"; err != nil => refuse")
+	if st = next("the check of the decoding error"); !k.importErrArm(st) {
+		k.fail(st, "the error of hex.DecodeString is not checked immediately by `if err != nil { return <error> }`")
+	}
+	st = next("the declaration of the key")
+	ds, ok := st.(*ast.DeclStmt)
+	var vs *ast.ValueSpec
+	if ok {
+		if g, isG := ds.Decl.(*ast.GenDecl); isG && g.Tok == token.VAR && len(g.Specs) == 1 {
+			vs, _ = g.Specs[0].(*ast.ValueSpec)
+		}
+	}
+	if vs == nil || len(vs.Names) != 1 || len(vs.Values) != 0 || vs.Type == nil || src(vs.Type) != "[48]byte" {
+		k.fail(st, "expected: var key [48]byte")
+	}
+	sh.key = k.importFresh(st, sh, vs.Names[0])
+	sh.keyTexts = append(sh.keyTexts, "[key] "+src(st))
+	st = next("the copy into the key")
+	if es, isE := st.(*ast.ExprStmt); !isE || src(es.X) != "copy("+sh.key+"[:], "+sh.keyBytes+")" {
+		k.fail(st, "expected: copy(%s[:], %s)", sh.key, sh.keyBytes)
+	}
+	sh.keyTexts = append(sh.keyTexts, "[key] "+src(st))
+	// the lookup in the map being built
+	st = next("the lookup of the key in the map being built")
+	as, ok = st.(*ast.AssignStmt)
+	var ix *ast.IndexExpr
+	if ok && len(as.Rhs) == 1 {
+		ix, _ = as.Rhs[0].(*ast.IndexExpr)
+	}
+	if !ok || as.Tok != token.DEFINE || len(as.Lhs) != 2 || ix == nil || src(ix.Index) != sh.key {
+		k.fail(st, "expected: keyProtection, exists := protectionMap[%s]", sh.key)
+	}
+	sh.m = k.importFresh(st, sh, ix.X)
+	sh.kp = k.importFresh(st, sh, as.Lhs[0])
+	sh.exists = k.importFresh(st, sh, as.Lhs[1])
+	// the start value
+	st = next("the selection of the start value")
+	sif, ok := plainIf(st)
+	if !ok || src(sif.Cond) != "!"+sh.exists {
+		k.fail(st, "expected: if !%s { … } (no init, no else)", sh.exists)
+	}
+	sh.startIf = sif
+	// the two folds, in either order
+	for n := 0; n < 2; n++ {
+		st = next("the loops over the entry's attestations and blocks")
+		r, ok := st.(*ast.RangeStmt)
+		switch {
+		case ok && src(r.X) == sh.entry+".SignedAttestations" && sh.attLoop == nil:
+			sh.attLoop = r
+			sh.loopOrder += "attestations;"
+		case ok && src(r.X) == sh.entry+".SignedBlocks" && sh.blockLoop == nil:
+			sh.blockLoop = r
+			sh.loopOrder += "blocks;"
+		default:
+			k.fail(st, "expected one loop over %s.SignedAttestations and one over %s.SignedBlocks", sh.entry, sh.entry)
+		}
+	}
+	// the record goes (back) into the map
+	st = next("the store into the map being built")
+	if as, ok = st.(*ast.AssignStmt); !ok || as.Tok != token.ASSIGN || len(as.Lhs) != 1 || len(as.Rhs) != 1 ||
+		src(as.Lhs[0]) != sh.m+"["+sh.key+"]" || src(as.Rhs[0]) != sh.kp {
+		k.fail(st, "expected: %s[%s] = %s", sh.m, sh.key, sh.kp)
+	}
+	for ; pos < len(body); pos++ {
+		if !k.importSilent(body[pos]) {
+			k.fail(body[pos], "statement after %s[%s] = %s", sh.m, sh.key, sh.kp)
+		}
+	}
+	// M: declared empty before the loop, and untouched until the loop
+	declared := false
+	for _, st := range fd.Body.List[:loopAt] {
+		if !mentionsIdent(st, sh.m) {
+			continue
+		}
+		as, ok := st.(*ast.AssignStmt)
+		if declared || !ok || as.Tok != token.DEFINE || len(as.Lhs) != 1 || len(as.Rhs) != 1 || src(as.Lhs[0]) != sh.m ||
+			src(as.Rhs[0]) != "make(map[[48]byte]*rules.SlashingProtection)" {
+			k.fail(st, "%s is not declared once as make(map[[48]byte]*rules.SlashingProtection) and left alone until the loop", sh.m)
+		}
+		declared = true
+	}
+	if !declared {
+		k.fail(nil, "%s is not declared before the loop", sh.m)
+	}
+	for _, n := range []string{sh.m, sh.kp, sh.key, sh.idx, sh.prot} {
+		k.roots[n] = true
+	}
+	return sh
+}
+
+// importStoreDecl: E is the result of ExportSlashingProtection, declared once before the loop.
+func (k *ktrans) importStoreDecl(fd *ast.FuncDecl, sh *importShape) string {
+	text := ""
+	for _, st := range fd.Body.List {
+		if r, ok := st.(*ast.RangeStmt); ok && src(r.X) == sh.prot+".Data" {
+			break
+		}
+		if !mentionsIdent(st, sh.e) {
+			continue
+		}
+		as, ok := st.(*ast.AssignStmt)
+		var call *ast.CallExpr
+		if ok && len(as.Rhs) == 1 {
+			call, _ = as.Rhs[0].(*ast.CallExpr)
+		}
+		if text != "" || call == nil || as.Tok != token.DEFINE || len(as.Lhs) != 2 || src(as.Lhs[0]) != sh.e || src(as.Lhs[1]) != "err" {
+			k.fail(st, "%s is not declared once, as the result of ExportSlashingProtection, and left alone until the loop", sh.e)
+		}
+		sel, ok := call.Fun.(*ast.SelectorExpr)
+		if !ok || sel.Sel.Name != "ExportSlashingProtection" {
+			k.fail(st, "%s is not the result of ExportSlashingProtection", sh.e)
+		}
+		text = src(st)
+	}
+	if text == "" {
+		k.fail(nil, "%s is not declared before the loop", sh.e)
+	}
+	return text
+}
+
+// importFieldAssign: `KP.F = e`, F one of the fields the kernel may write; returns the Lean variable and the value.
+func (k *ktrans) importFieldAssign(st ast.Stmt, sh *importShape, fields []kparam, env map[string]lexpr) (string, lexpr, bool) {
+	as, ok := st.(*ast.AssignStmt)
+	if !ok || as.Tok != token.ASSIGN || len(as.Lhs) != 1 || len(as.Rhs) != 1 {
+		return "", lexpr{}, false
+	}
+	sel, ok := as.Lhs[0].(*ast.SelectorExpr)
+	if !ok || src(sel.X) != sh.kp {
+		return "", lexpr{}, false
+	}
+	for _, f := range fields {
+		if f.goExpr == sel.Sel.Name {
+			v := k.expr(as.Rhs[0], env)
+			if v.t == tUntyped {
+				v = k.coerce(st, v, tInt)
+			}
+			if v.t != tInt {
+				k.fail(st, "field assigned a value that is not an int64")
+			}
+			return f.lean, v, true
+		}
+	}
+	k.fail(st, "assignment to a field that is not part of this kernel's state")
+	return "", lexpr{}, false
+}
+
+func (k *ktrans) importReadable(root string, fields []kparam, lean func(f kparam) string) {
+	for _, f := range fields {
+		k.spec.params = append(k.spec.params, kparam{root + "." + f.goExpr, lean(f), "Int", tInt})
+	}
+}
+
+// ---- 1. the start value ----
+
+func transImportStart(k *ktrans, fd *ast.FuncDecl) string {
+	sh := k.importSkeleton(fd)
+	k.importReadable(sh.kp, importFields, func(f kparam) string { return f.lean })
+	env := map[string]lexpr{}
+	texts := append([]string{}, sh.keyTexts...)
+	texts = append(texts, sh.kp+", "+sh.exists+" := "+sh.m+"["+sh.key+"]  [map lookup: the record ↦ fromFile]", "!"+sh.exists+" => {")
+	var body []ast.Stmt
+	for _, st := range sh.startIf.Body.List {
+		if !k.importSilent(st) {
+			body = append(body, st)
+		}
+	}
+	if len(body) == 0 {
+		k.fail(sh.startIf, "empty block")
+	}
+	// KP = &rules.SlashingProtection{F: c, …}   (a field that is not listed is 0)
+	as, ok := body[0].(*ast.AssignStmt)
+	var lit *ast.CompositeLit
+	if ok && len(as.Rhs) == 1 {
+		if u, isU := as.Rhs[0].(*ast.UnaryExpr); isU && u.Op == token.AND {
+			lit, _ = u.X.(*ast.CompositeLit)
+		}
+	}
+	if !ok || as.Tok != token.ASSIGN || len(as.Lhs) != 1 || src(as.Lhs[0]) != sh.kp || lit == nil || lit.Type == nil || src(lit.Type) != "rules.SlashingProtection" {
+		k.fail(body[0], "expected: %s = &rules.SlashingProtection{…}", sh.kp)
+	}
+	initial := map[string]string{}
+	for _, el := range lit.Elts {
+		kv, ok := el.(*ast.KeyValueExpr)
+		if !ok {
+			k.fail(el, "positional struct literal")
+		}
+		name := src(kv.Key)
+		known := false
+		for _, f := range importFields {
+			known = known || f.goExpr == name
+		}
+		if _, dup := initial[name]; !known || dup {
+			k.fail(el, "field of the fresh record that is not one of the three watermarks (or is given twice)")
+		}
+		v := k.expr(kv.Value, map[string]lexpr{})
+		if v.t != tUntyped {
+			k.fail(el, "initial value is not an integer constant")
+		}
+		initial[name] = k.coerce(el, v, tInt).s
+	}
+	ind := "    "
+	var lines []string
+	for _, f := range importFields {
+		v, given := initial[f.goExpr]
+		if !given {
+			v = "0"
+		}
+		lines = append(lines, ind+"let "+f.lean+" : Int := "+v)
+	}
+	texts = append(texts, "  "+src(body[0]))
+	result := "(curSlot, curSrc, curTgt)"
+	closed := false
+	for _, st := range body[1:] {
+		if closed {
+			k.fail(st, "statement after the lookup in the existing store")
+		}
+		if name, v, ok := k.importFieldAssign(st, sh, importFields, env); ok {
+			lines = append(lines, ind+"let "+name+" : Int := "+v.s)
+			texts = append(texts, "  "+src(st))
+			continue
+		}
+		// if EKP, EX2 := E[K]; EX2 { KP.F = e … }
+		x, ok := st.(*ast.IfStmt)
+		if !ok || x.Else != nil || x.Init == nil {
+			k.fail(st, "unsupported statement in the selection of the start value")
+		}
+		las, ok := x.Init.(*ast.AssignStmt)
+		var ix *ast.IndexExpr
+		if ok && len(las.Rhs) == 1 {
+			ix, _ = las.Rhs[0].(*ast.IndexExpr)
+		}
+		if !ok || las.Tok != token.DEFINE || len(las.Lhs) != 2 || ix == nil || src(ix.Index) != sh.key {
+			k.fail(st, "expected: if existing, exists := existingProtection[%s]; exists { … }", sh.key)
+		}
+		if _, isId := ix.X.(*ast.Ident); !isId || src(ix.X) == sh.m {
+			k.fail(st, "lookup in something other than the export of the existing store")
+		}
+		sh.e = src(ix.X)
+		if sh.taken[sh.e] || importReserved[sh.e] || k.roots[sh.e] {
+			k.fail(st, "lookup in something other than the export of the existing store")
+		}
+		decl := k.importStoreDecl(fd, sh)
+		sh.taken[sh.e] = true
+		k.roots[sh.e] = true
+		// the flag may reuse the name of the outer flag (as the source does): it hides it from here on
+		flag, isId := las.Lhs[1].(*ast.Ident)
+		if !isId || flag.Name == "_" || importReserved[flag.Name] || k.roots[flag.Name] || (sh.taken[flag.Name] && flag.Name != sh.exists) {
+			k.fail(st, "unusable flag name")
+		}
+		ekp := k.importFresh(st, sh, las.Lhs[0])
+		if src(x.Cond) != flag.Name {
+			k.fail(st, "the record of the existing store is used under a condition other than its presence")
+		}
+		k.roots[ekp] = true
+		pos := map[string]string{"curSlot": "ex.1", "curSrc": "ex.2.1", "curTgt": "ex.2.2"}
+		k.importReadable(ekp, importFields, func(f kparam) string { return pos[f.lean] })
+		lines = append(lines, ind+"match fromStore with", ind+"| none => "+result, ind+"| some ex =>")
+		texts = append(texts, "  ["+decl+"]", "  "+src(las)+"; "+src(x.Cond)+" => {  [map lookup: the record ↦ fromStore]")
+		n := 0
+		for _, bs := range x.Body.List {
+			if k.importSilent(bs) {
+				continue
+			}
+			name, v, ok := k.importFieldAssign(bs, sh, importFields, env)
+			if !ok {
+				k.fail(bs, "unsupported statement in the copy of the existing record")
+			}
+			lines = append(lines, ind+"  let "+name+" : Int := "+v.s)
+			texts = append(texts, "    "+src(bs))
+			n++
+		}
+		lines = append(lines, ind+"  "+result)
+		texts = append(texts, "  }")
+		closed = true
+	}
+	if !closed {
+		lines = append(lines, ind+result)
+	}
+	texts = append(texts, "}", "[loops over the entry: "+sh.loopOrder+"]", sh.m+"["+sh.key+"] = "+sh.kp)
+	var b strings.Builder
+	k.docHead(&b, "the record the merge of one file entry starts from, as (slot, source, target).\n    `fromFile`: the record already in the map being built (the key was seen earlier in this file); `fromStore`: the key's record in\n    the export of the existing store")
+	fmt.Fprintf(&b, "def %s (fromFile fromStore : Option (Int × Int × Int)) : Int × Int × Int :=\n  match fromFile with\n  | some kp => kp\n  | none =>\n%s\n\n",
+		k.spec.name, strings.Join(lines, "\n"))
+	k.emitGuardTexts(&b, texts)
+	return b.String()
+}
+
+// ---- 2./3. one iteration of a fold ----
+//
+//	V, err := strconv.ParseInt(A.F, 10, 64); if err != nil { return <error> }     ↦ match <input F> with | none => none | some v_V =>
+//	if c { return <fresh error> }                                                 ↦ if c then none else
+//	if c { KP.G = e }                                                             ↦ let curG : Int := if c then e else curG
+//	KP.G = e                                                                      ↦ let curG : Int := e
+//	x := e (an int64 local)                                                       ↦ let v_x : Int := e
+//
+// in source order; the end of the body is `some <state>`.
+
+func (k *ktrans) importStep(fd *ast.FuncDecl, pick func(sh *importShape) *ast.RangeStmt, fields []kparam, inputs map[string]string,
+	sig, result, what string) string {
+	sh := k.importSkeleton(fd)
+	r := pick(sh)
+	key, _ := r.Key.(*ast.Ident)
+	if r.Tok != token.DEFINE || key == nil || key.Name != "_" || r.Value == nil {
+		k.fail(r, "the loop is not `for _, x := range …`")
+	}
+	elem := k.importFresh(r, sh, r.Value)
+	k.roots[elem] = true
+	k.importReadable(sh.kp, fields, func(f kparam) string { return f.lean })
+	env := map[string]lexpr{}
+	texts := []string{strings.TrimSuffix(loopHead(r), " … }")}
+	ind := "  "
+	var lines []string
+	local := func(n ast.Node, e ast.Expr) string {
+		name := k.importFresh(n, sh, e)
+		k.leanLocal(n, name)
+		return "v_" + name
+	}
+	list := r.Body.List
+	for i := 0; i < len(list); i++ {
+		st := list[i]
+		if k.importSilent(st) {
+			continue
+		}
+		if name, v, ok := k.importFieldAssign(st, sh, fields, env); ok {
+			lines = append(lines, ind+"let "+name+" : Int := "+v.s)
+			texts = append(texts, "  "+src(st))
+			continue
+		}
+		switch x := st.(type) {
+		case *ast.AssignStmt:
+			if x.Tok != token.DEFINE || len(x.Rhs) != 1 {
+				k.fail(st, "unsupported assignment")
+			}
+			if len(x.Lhs) == 1 {
+				v := k.expr(x.Rhs[0], env)
+				if v.t != tInt {
+					k.fail(st, "local that is not an int64")
+				}
+				lean := local(st, x.Lhs[0])
+				lines = append(lines, ind+"let "+lean+" : Int := "+v.s)
+				env[src(x.Lhs[0])] = lexpr{lean, tInt, true}
+				texts = append(texts, "  "+src(st))
+				continue
+			}
+			call, ok := x.Rhs[0].(*ast.CallExpr)
+			if !ok || len(x.Lhs) != 2 || src(x.Lhs[1]) != "err" || src(call.Fun) != "strconv.ParseInt" || len(call.Args) != 3 ||
+				src(call.Args[1]) != "10" || src(call.Args[2]) != "64" {
+				k.fail(st, "expected: v, err := strconv.ParseInt(%s.<field>, 10, 64)", elem)
+			}
+			sel, ok := call.Args[0].(*ast.SelectorExpr)
+			if !ok || src(sel.X) != elem || inputs[sel.Sel.Name] == "" {
+				k.fail(st, "the number parsed is not a field of the loop element that is an input of this kernel")
+			}
+			if i+1 >= len(list) || !k.importErrArm(list[i+1]) {
+				k.fail(st, "the error of strconv.ParseInt is not checked immediately by `if err != nil { return <error> }`")
+			}
+			lean := local(st, x.Lhs[0])
+			lines = append(lines, ind+"match "+inputs[sel.Sel.Name]+" with", ind+"| none => none", ind+"| some "+lean+" =>")
+			ind += "  "
+			env[src(x.Lhs[0])] = lexpr{lean, tInt, true}
+			texts = append(texts, "  "+src(st)+"; err != nil => refuse  ["+src(call)+" ↦ "+inputs[sel.Sel.Name]+"]")
+			i++
+		case *ast.IfStmt:
+			if _, ok := plainIf(st); !ok {
+				k.fail(st, "if with init or else")
+			}
+			c := k.cond(x.Cond, env)
+			var body []ast.Stmt
+			for _, bs := range x.Body.List {
+				if !k.importSilent(bs) {
+					body = append(body, bs)
+				}
+			}
+			if len(body) != 1 {
+				k.fail(st, "conditional block is not a single return of an error or a single field assignment")
+			}
+			if _, isRet := body[0].(*ast.ReturnStmt); isRet {
+				if !k.importErrReturn(body[0], false) {
+					k.fail(body[0], "return of something other than a fresh error")
+				}
+				lines = append(lines, ind+"if "+c.s+" then none else")
+				texts = append(texts, "  "+src(x.Cond)+" => refuse")
+				continue
+			}
+			name, v, ok := k.importFieldAssign(body[0], sh, fields, env)
+			if !ok {
+				k.fail(st, "conditional block is not a single return of an error or a single field assignment")
+			}
+			lines = append(lines, ind+"let "+name+" : Int := if "+c.s+" then "+v.s+" else "+name)
+			texts = append(texts, "  "+src(x.Cond)+" => "+src(body[0]))
+		default:
+			k.fail(st, "unsupported statement")
+		}
+	}
+	lines = append(lines, ind+"some "+result)
+	texts = append(texts, "}")
+	var b strings.Builder
+	k.docHead(&b, what)
+	fmt.Fprintf(&b, "def %s %s :=\n%s\n\n", k.spec.name, sig, strings.Join(lines, "\n"))
+	k.emitGuardTexts(&b, texts)
+	return b.String()
+}
+
+func transImportAttStep(k *ktrans, fd *ast.FuncDecl) string {
+	return k.importStep(fd, func(sh *importShape) *ast.RangeStmt { return sh.attLoop }, importFields[1:],
+		map[string]string{"SourceEpoch": "src", "TargetEpoch": "tgt"},
+		"(curSrc curTgt : Int) (src tgt : Option Int) : Option (Int × Int)", "(curSrc, curTgt)",
+		"one iteration of the loop over the entry's signed attestations.  `curSrc`, `curTgt`: the record's HighestAttestedSourceEpoch / …TargetEpoch;\n    `src`, `tgt`: strconv.ParseInt(attestation.SourceEpoch / .TargetEpoch, 10, 64) (`none` = it returned an error);\n    result `none` = the function returns an error, else the two fields after the iteration")
+}
+
+func transImportBlockStep(k *ktrans, fd *ast.FuncDecl) string {
+	return k.importStep(fd, func(sh *importShape) *ast.RangeStmt { return sh.blockLoop }, importFields[:1],
+		map[string]string{"Slot": "slot"},
+		"(curSlot : Int) (slot : Option Int) : Option Int", "curSlot",
+		"one iteration of the loop over the entry's signed blocks.  `curSlot`: the record's HighestProposedSlot;\n    `slot`: strconv.ParseInt(proposal.Slot, 10, 64) (`none` = it returned an error);\n    result `none` = the function returns an error, else the field after the iteration")
 }
